@@ -82,10 +82,14 @@ pub fn c19() -> Check {
     Check {
         property: "C19",
         level: "fault_enumeration",
-        scenarios: vec![Box::new(SqlScenario { name: "c19-drop", family: Family::Any, mode: Mode::Drop, need_reference: false, weight: 1, dynamic_filters: false, nlj_focus: false })],
+        scenarios: vec![
+            Box::new(SqlScenario { name: "c19-drop", family: Family::Any, mode: Mode::Drop, need_reference: false, weight: 3, dynamic_filters: false, nlj_focus: false }),
+            Box::new(crate::c19::YieldRepartition),
+            Box::new(crate::c19::YieldSql),
+        ],
         cases_quick: 16_000,
         cases_thorough: 400_000,
-        rule: "runs: generated queries executed through the real planner, whose output stream is dropped before the first poll or after 1..3 batches (drop point swept by the generator), merged stream or per-partition consumption; afterwards the simulator runs the system to quiescence and checks: no live background task, every input stream released, pool 0 bytes, no spill file. distinct/non-trivial as for C02",
+        rule: "runs: generated queries executed through the real planner, whose output stream is dropped before the first poll or after 1..3 batches (drop point swept by the generator), merged stream or per-partition consumption; afterwards the simulator runs the system to quiescence and checks: no live background task, every input stream released, pool 0 bytes, no spill file. c19-yield-repartition / c19-yield-sql (2 of 5 runs): an always-ready ENDLESS input (non-cooperative leaf) under RepartitionExec (hash with outputs that never receive a row, round-robin) or under 11 query shapes planned by the real optimizer (count, never-matching filter, GROUP BY, ORDER BY LIMIT, joins, window, UNION, DISTINCT); the consumers give up once the input has produced 50/300/1500 batches (optionally staggered per output); the input may be pulled at most 2000 times inside one task poll (tokio's budget is 128) and must stop being pulled after the drop. distinct/non-trivial as for C02",
         assumptions: L1_ASSUME.to_vec(),
         components: components(),
     }
